@@ -156,7 +156,16 @@ def ref(p):
             table = sorted((Fraction(j + 1, r.n), d, j) for d, r in enumerate(parts) for j in range(r.n))
             outs = [parts[d].outs[j] for _, d, j in table]
             keys = [parts[d].keys[j] for _, d, j in table] if all(r.keys is not None for r in parts) else None
-            return Ref(outs=outs, keys=keys,
+            # iteration pulls the parts' ITERATIONS in table order (exactly len(part) pulls per part)
+            svals, serr = [], None
+            for _, d, j in table:
+                pv, pe = parts[d].stream
+                if j < len(pv):
+                    svals.append(pv[j])
+                else:
+                    serr = pe if pe is not None else 'RuntimeError'
+                    break
+            return Ref(outs=outs, stream=(svals, serr), keys=keys,
                        keys_api=all(r.keys_api for r in parts) and len(set(keys)) == len(keys),
                        indexable=all(r.indexable for r in parts), haslen=True,
                        ordered=all(r.ordered for r in parts))
@@ -305,7 +314,10 @@ def ref(p):
             return Ref(stream=(vals * reps, None), keys=r.keys * reps if r.keys is not None else None,
                        indexable=False, haslen=r.haslen, ordered=r.ordered)
         keys = r.keys * reps if r.keys is not None else None
-        return Ref(outs=r.outs * reps, keys=keys, keys_api=r.keys_api and r.n == 0,
+        # ConcatenateDataset iterates its parts one after the other (a part's iteration may end with
+        # an error that no position shows: a failing dropped tail of a batch below)
+        stream = (r.stream[0], r.stream[1]) if r.stream[1] is not None else (r.stream[0] * reps, None)
+        return Ref(outs=r.outs * reps, stream=stream, keys=keys, keys_api=r.keys_api and r.n == 0,
                    indexable=r.indexable, haslen=r.haslen, ordered=r.ordered)
     if op == 'shuffleOnce':
         if not r.indexable or sorted(p['perm']) != list(range(r.n)):
@@ -400,7 +412,10 @@ def ref(p):
         keys = r.keys if single else None
         if keys is not None:
             keys = keys[:len(r.stream[0])]
-        return Ref(stream=r.stream, keys=keys, keys_api=False, indexable=False, haslen=r.haslen,
+        # one worker thread iterates the input; several workers fetch position by position (which is
+        # not the same over a batch with `drop_last` whose dropped tail fails, see rel_batch_iff)
+        stream = r.stream if single else stream_of(r.outs)
+        return Ref(stream=stream, keys=keys, keys_api=False, indexable=False, haslen=r.haslen,
                    ordered=r.ordered)
     if op == 'cycle':
         return Ref(stream=r.stream, keys=r.keys, keys_api=r.keys_api, indexable=r.indexable,
